@@ -76,6 +76,72 @@ theorem retry_after_pending_poll_rejected :
   refine ⟨rfl, rfl, ?_⟩
   decide
 
+/-- **`poll_ready` answers `Ready` only on the strength of its inner service's answer** — in every state of every layer:
+a ready answer at the outer boundary for instance `o` needs the inner instance that `o` holds to have *just* answered
+ready. What the layer believes about its own protective state (a rate limiter whose window looks used up: "the call
+will be rejected anyway") is no substitute — the decision that counts is taken later, in `call`. -/
+theorem ready_answer_needs_inner_ready (s s' : LSt) (o : Nat) (h : outerPoll s o .ready = some s') :
+    ∃ i, s.cur o = some i ∧ s.lastReady = some i := by
+  unfold outerPoll at h
+  split at h
+  · split at h
+    · rename_i i hi
+      split at h
+      · rename_i hr
+        exact ⟨i, hi, hr rfl⟩
+      · simp at h
+    · simp at h
+  · simp at h
+
+/-- … and that answer is used up by whatever the layer's caller does next: after ANY event at the outer boundary (a call
+that the layer answered itself — a rejection —, another poll, a clone), in any state, a ready answer without a new poll
+of the inner service is something the layers' idiom cannot do. -/
+theorem no_ready_answer_without_inner_poll (s s' : LSt) (ev : Stack.Ev) (o : Nat) (h : s.step (.outer ev) = some s') :
+    outerPoll s' o .ready = none := by
+  have hl : s'.lastReady = none := by
+    cases ev with
+    | clone a b =>
+      simp only [LSt.step, outerClone] at h
+      split at h
+      · simp only [Option.some.injEq] at h; subst h; rfl
+      · simp at h
+    | poll a r =>
+      simp only [LSt.step, outerPoll] at h
+      split at h
+      · split at h
+        · split at h
+          · simp only [Option.some.injEq] at h; subst h; rfl
+          · simp at h
+        · simp at h
+      · simp at h
+    | call a t =>
+      simp only [LSt.step, outerCall] at h
+      split at h
+      · simp only [Option.some.injEq] at h; subst h; rfl
+      · simp at h
+  cases hr : outerPoll s' o .ready with
+  | none => rfl
+  | some s'' =>
+    obtain ⟨i, _, hi⟩ := ready_answer_needs_inner_ready s' s'' o hr
+    rw [hl] at hi
+    cases hi
+
+/-- The seeded "fail-fast limiter with a used-up window answers `poll_ready` itself": request 7 is forwarded, request 8 is
+rejected by the limiter (no inner call), and for request 9 the limiter answers ready without polling the fresh clone it
+holds; the window has rolled over meanwhile, so `call` forwards request 9 to that never-polled instance. The layer
+automaton cannot perform the trace, the repaired trace (the clone is polled first) it can, and the trace at the inner
+boundary breaks the contract. -/
+theorem ready_without_inner_poll_rejected :
+    (LSt.run {} [.inner (.poll 0 .ready), .outer (.poll 0 .ready), .outer (.call 0 7), .inner (.clone 0 1), .inner (.call 0 7),
+                 .inner (.poll 1 .ready), .outer (.poll 0 .ready), .outer (.call 0 8), .inner (.clone 1 2),
+                 .outer (.poll 0 .ready), .outer (.call 0 9), .inner (.clone 2 3), .inner (.call 2 9)]).isNone ∧
+    (LSt.run {} [.inner (.poll 0 .ready), .outer (.poll 0 .ready), .outer (.call 0 7), .inner (.clone 0 1), .inner (.call 0 7),
+                 .inner (.poll 1 .ready), .outer (.poll 0 .ready), .outer (.call 0 8), .inner (.clone 1 2),
+                 .inner (.poll 2 .ready), .outer (.poll 0 .ready), .outer (.call 0 9), .inner (.clone 2 3), .inner (.call 2 9)]).isSome ∧
+    ¬ Respects [.poll 0 .ready, .clone 0 1, .call 0 7, .poll 1 .ready, .clone 1 2, .clone 2 3, .call 2 9] := by
+  refine ⟨rfl, rfl, ?_⟩
+  decide
+
 /-- Non-vacuity: the events two repaired layers (retry over circuit breaker) produced in the
 harness for a request that is retried once — accepted, and the caller respects the contract. -/
 example :
@@ -123,6 +189,49 @@ theorem no_catch_violates :
     callPath emitNoCatch [fun (_ : Nat) => false, fun _ => true, fun _ => false] [0] (.ok 5) = .panic ∧
     (emitNoCatch [fun (_ : Nat) => false, fun _ => true, fun _ => false] 0).ran = [0, 1] := by
   constructor <;> rfl
+
+/-! ### one callback per kind of news (reconnect's `on_state_change` / `on_reconnect`) -/
+
+theorem notifyFrom_own_guards {Event : Type} (i : Nat) (cbs : List (Listener Event)) (e : Event) :
+    notifyFrom i (cbs.map fun c => [c]) e = List.range' i cbs.length := by
+  induction cbs generalizing i with
+  | nil => rfl
+  | cons c tl ih =>
+    have h1 : (emitNoCatchFrom i [c] e).ran = [i] := by
+      simp only [emitNoCatchFrom]
+      split <;> rfl
+    simp only [List.map_cons, notifyFrom, h1, List.length_cons, List.length_nil, Nat.zero_add, ih, List.range'_succ,
+      List.singleton_append]
+
+/-- **Every callback is told, whatever the others do**: with one unwind guard per callback — the code's way — all
+callbacks that one moment of the call path is reported to are invoked, in order, for ANY list of callbacks and any subset
+of them panicking. -/
+theorem every_callback_told {Event : Type} (cbs : List (Listener Event)) (e : Event) :
+    notify (cbs.map fun c => [c]) e = List.range cbs.length := by
+  simp [notify, notifyFrom_own_guards, List.range_eq_range']
+
+/-- **A shared guard starves the callbacks behind a panicking one**: in a group of callbacks under ONE `catch_unwind`, the
+first one that panics is the last one invoked — for any group, wherever the panic happens. -/
+theorem shared_guard_stops_at_first_panic {Event : Type} (i : Nat) (pre post : List (Listener Event)) (l : Listener Event)
+    (e : Event) (hpre : ∀ x ∈ pre, x e = false) (hl : l e = true) :
+    (emitNoCatchFrom i (pre ++ l :: post) e).ran.length = pre.length + 1 := by
+  induction pre generalizing i with
+  | nil => simp [emitNoCatchFrom, hl]
+  | cons x tl ih =>
+    have hx : x e = false := hpre x (by simp)
+    have := ih (i + 1) (fun y hy => hpre y (by simp [hy]))
+    simp [emitNoCatchFrom, hx, this]
+
+/-- The seeded "both reports belong to the same moment, so they share one unwind guard" of reconnect: the news "a
+reconnect attempt starts" goes to `on_state_change` (position 0) and `on_reconnect` (position 1). Own guards: both are
+told even when the first panics. One shared guard: when `on_state_change` panics, `on_reconnect` is never told (the call's
+outcome is unchanged — nothing escapes — which is why no test of outcomes notices); a panicking `on_reconnect`, last in
+its group, starves nobody. -/
+theorem shared_guard_violates :
+    notify [[fun (_ : Nat) => true], [fun _ => false]] 0 = [0, 1] ∧
+    notify [[fun (_ : Nat) => true, fun _ => false]] 0 = [0] ∧
+    notify [[fun (_ : Nat) => false, fun _ => true]] 0 = [0, 1] := by
+  refine ⟨rfl, rfl, rfl⟩
 
 /-- **A listener sees the layer as the next caller will.** On a completion path that gives back everything the
 finished call holds before it runs its listeners (`drop(permit)`, then `emit`: any number of releases followed by
